@@ -237,6 +237,12 @@ class Normalize(Command):
         arr_min = arr.min()
         arr_max = arr.max()
 
+        if arr_min is not numpy.ma.masked and arr_max is not numpy.ma.masked:
+            # Work with the extremes as plain floats: as scalars of a narrow or unsigned integer type their differences
+            # wrap around (e.g. 0 - 250 for 8-bit data)
+            arr_min = float(arr_min)
+            arr_max = float(arr_max)
+
         return (arr - arr_min) * (start - end) / (arr_min - arr_max) + start
 
 
